@@ -198,6 +198,11 @@ def run_verus_job(ctx, res, job):
             else:
                 res.obls.append(Obl(oid, "verus", "undecided", detail=detail, fn=fn))
                 res.undecided.append("%s: %s not decided (%s): %s" % (job.name, fn, ",".join(sorted(classes)) or "no diagnostic", detail[:600]))
+    # obligation diagnostics inside a function nobody expects (e.g. a new function in an ingested file): undecided, never silent
+    expected_last = {fn.split("::")[-1] for fn in job.expect_fns}
+    for lab, es in by_label.items():
+        if lab not in expected_last and any(e["class"] == "obligation" for e in es):
+            res.undecided.append("%s: verifier reported a failed obligation in `%s`, which is not under contract in this unit: %s" % (job.name, lab, es[0]["text"][:600]))
     # diagnostics that belong to no expected function (e.g. tool errors) make the run undecided
     for e in tool_errs:
         res.undecided.append("%s: tool error: %s" % (job.name, e["text"][:800]))
